@@ -22,8 +22,9 @@
     (d) [run_away_complete]: quiescent end, connection of L2 alive: every offset from c0 to the end
         of log i is accounted for after the marker.
     (e) [run_clean_connect_no_res]: the epoch of a Connect with clean_session = true has no resume
-        marker; [disc_ghost_clean]: removing a connection with clean_session = true emits no end
-        marker. *)
+        marker; [run_clean_disconnect_no_end]: the connection it creates never produces an end
+        marker ([TraceResumeClean.v]: c_clean of a connection record and o_link of its Outgoing never
+        change while the connection lives). *)
 From Rumqtt Require Import Router.NoPanicLog.
 From Rumqtt Require Import Router.Model Router.InvLemmasBase Router.Inv Router.InvLemmasPrim Router.InvLemmasSched
   Router.InvLemmasDl Router.InvLemmasRoute Router.InvLemmasConn Router.InvLemmasPkt Router.InvLemmasConsume
@@ -34,7 +35,7 @@ From Rumqtt Require Import Router.WindowFrame Router.Window Router.WindowStep Ro
                            Router.ExactInv Router.ExactStep1 Router.ExactStep2 Router.ExactStep3 Router.ExactLogs
                            Router.ExactSweep Router.ExactThm.
 From Rumqtt Require Import Router.Wake Router.WakePark Router.WakeThm Router.WakeCor.
-From Rumqtt Require Router.Session Router.SessionInv Router.SessionIds.
+From Rumqtt Require Router.Session Router.SessionInv Router.SessionIds Router.TraceResumeClean.
 From Rumqtt Require Import Router.TraceRun Router.TraceRunHeld Router.TraceRunInv Router.TraceRunPkt Router.TraceRunSweep
                            Router.TraceRunStep Router.TraceRunThm Router.TraceRunContent Router.TraceRunShape Router.TraceRunFinal
                            Router.TraceResume Router.TraceResumeWin Router.TraceResumeEnd.
@@ -470,4 +471,210 @@ Proof.
   intros Hcfg Hmo Hi Hwf Hr HB Hcl s1 tr1 E1.
   pose proof (conj Hcfg (conj Hmo (conj Hi (conj Hwf (conj Hr HB)))) : run_hyps cfg st0 _ st tr) as H.
   split; [exact (run_clean_connect_no_res _ _ _ _ _ _ _ _ H Hcl _ _ E1)|exact (run_clean_connect_keys_sub _ _ _ _ _ _ _ _ H Hcl _ _ E1)].
+Qed.
+
+(* ------------------------------------------------------------------ (e), the old end, at run level *)
+Module C := TraceResumeClean.
+
+Lemma clv_obuf st j l b : C.clv st j = (Some l, Some b) ->
+  exists o c, slab_get (r_obufs st) j = Some o /\ o_link o = l /\ slab_get (r_conns st) j = Some c /\ c_clean c = b.
+Proof.
+  unfold C.clv. intros E. injection E as E1 E2.
+  destruct (slab_get (r_obufs st) j) as [o|]; [|discriminate]. destruct (slab_get (r_conns st) j) as [c|]; [|discriminate].
+  cbn [option_map] in *. inversion E1; inversion E2. exists o, c. auto.
+Qed.
+
+(** an end marker under link k: the removed connection had link k and clean_session = false *)
+Lemma disc_ghost_clv st id st' id0 k f i cl r w :
+  In (id0, (k, f, i), KEnd cl r w) (disc_ghost st id st') -> C.clv st id = (Some k, Some false).
+Proof.
+  unfold disc_ghost, C.clv. destruct (slab_get (r_obufs st) id) as [o|]; [|intros []].
+  destruct (slab_get (r_trackers st) id) as [t|]; [|intros []]. destruct (slab_get (r_conns st) id) as [c|]; [|intros []].
+  destruct (c_clean c) eqn:Ec; [intros []|]. destruct (al_get str_eqb (tr_id t) (r_graveyard st')) as [[ss|]|]; try (intros []).
+  intros Hin. apply in_map_iff in Hin as (rq & E & _). inversion E; subst. cbn [option_map]. now rewrite Ec.
+Qed.
+
+Lemma step_end_clv st orc o st' out evs :
+  step_with_d st orc o = Ok (st', out, evs) ->
+  forall id k f i cl r w, In (id, (k, f, i), KEnd cl r w) evs -> exists j, C.clv st j = (Some k, Some false).
+Proof.
+  intros H id k f i cl r w Hin. unfold step_with_d in H.
+  apply bind_ok in H as ([[s1 out1] evs1] & H1 & H). destruct (r_oracle s1); [|discriminate]. inv_ok.
+  assert (Hnm : no_mark evs -> False).
+  { unfold no_mark. rewrite forallb_forall. intros X. specialize (X _ Hin). discriminate. }
+  destruct o as [c | k0 pk | id0 | | k0 | id0 | id0 | id0 f0 | c |]; unfold step_d in H1.
+  - apply bind_ok in H1 as ([s2 o2] & _ & H1). inv_ok. apply in_app_or in Hin as [Hin | Hin].
+    + unfold take_ghost in Hin. destruct (validate_clientid (cr_client c)); [|destruct Hin].
+      match type of Hin with In _ (match ?x with _ => _ end) => destruct x as [cid|]; [|destruct Hin] end.
+      match type of Hin with In _ (match ?x with _ => _ end) => destruct x as [s| |]; try destruct Hin end.
+      exists cid. exact (disc_ghost_clv _ _ _ _ _ _ _ _ _ _ Hin).
+    + exfalso. match type of Hin with In _ (conn_ghost ?a ?b ?c) => pose proof (conn_ghost_noend a b c) as X end.
+      rewrite forallb_forall in X. specialize (X _ Hin). discriminate.
+  - apply bind_ok in H1 as ([s2 o2] & _ & H1). inv_ok. destruct Hin.
+  - apply bind_ok in H1 as ([s2 e2] & H2 & H1). inv_ok. unfold handle_device_payload_d in H2.
+    destruct (slab_get _ id0); [|inv_ok; destruct Hin]. apply bind_ok in H2 as (b & _ & H2).
+    apply bind_ok in H2 as ([[st1' fl] ev1] & Hp & H2).
+    apply bind_ok in H2 as (st2' & H2a & H2). apply bind_ok in H2 as (st3' & H3a & H2). apply bind_ok in H2 as (st4' & _ & H2). inv_ok.
+    apply in_app_or in Hin as [Hin | Hin].
+    { exfalso. pose proof (handle_packets_nomark _ _ _ _ _ _ _ _ Hp) as X. unfold no_mark in X. rewrite forallb_forall in X.
+      specialize (X _ Hin). discriminate. }
+    destruct (f_disconnect fl); [|destruct Hin]. apply disc_ghost_clv in Hin.
+    pose proof (handle_packets_d_ok _ _ _ _ _ _ _ _ Hp) as Hp'.
+    pose proof ((C.fc_handle_packets _ _ _ _ _) _ Hp') as K1. cbn [fst] in K1.
+    assert (K2 : C.Kcl st1' st2') by (destruct (f_force_ack fl); [exact ((C.fc_reschedule _ _ _) _ H2a)|inv_ok; apply C.Kcl_refl]).
+    assert (K3 : C.Kcl st2' st3') by (destruct (f_new_data fl); [exact ((C.fc_drain_notifications _) _ H3a)|inv_ok; apply C.Kcl_refl]).
+    exists id0. rewrite (K3 id0), (K2 id0), (K1 id0) in Hin. exact Hin.
+  - apply bind_ok in H1 as ([[s2 b] e2] & H2 & H1). inv_ok. exfalso. apply Hnm. eapply consume_nomark; exact H2.
+  - apply bind_ok in H1 as ([s2 o2] & _ & H1). inv_ok. destruct Hin.
+  - apply bind_ok in H1 as ([s2 o2] & _ & H1). inv_ok. destruct Hin.
+  - apply bind_ok in H1 as ([s2 o2] & _ & H1). inv_ok. exists id0. exact (disc_ghost_clv _ _ _ _ _ _ _ _ _ _ Hin).
+  - apply bind_ok in H1 as ([s2 o2] & _ & H1). inv_ok. destruct Hin.
+  - apply bind_ok in H1 as ([s2 o2] & _ & H1). inv_ok. destruct Hin.
+  - apply bind_ok in H1 as ([s2 o2] & _ & H1). inv_ok. destruct Hin.
+Qed.
+
+(** every connection of link L has clean_session = true *)
+Definition CleanL (L : N) (st : rstate) : Prop := forall j b, C.clv st j = (Some L, Some b) -> b = true.
+
+Lemma run_no_end L : forall ops s st tr,
+  run_d s ops = Ok (st, tr) -> L < lenN (r_links s) -> CleanL L s ->
+  forall id f i cl r w, ~ In (id, (L, f, i), KEnd cl r w) tr.
+Proof.
+  induction ops as [|[orc o] ops IH]; intros s st tr H HL HC id f i cl r w Hin; cbn [run_d] in H; [inv_ok; destruct Hin|].
+  apply bind_ok in H as ([[s1 out] evs] & H1 & H). apply bind_ok in H as ([s2 evs2] & H2 & H). inv_ok.
+  apply in_app_or in Hin as [Hin | Hin].
+  - destruct (step_end_clv _ _ _ _ _ _ H1 _ _ _ _ _ _ _ Hin) as (j & Hj). specialize (HC _ _ Hj). discriminate.
+  - pose proof (step_with_d_step _ _ _ _ _ _ H1) as H1'.
+    eapply (IH s1); [exact H2| | |exact Hin].
+    + pose proof (step_with_links_le _ _ _ _ _ H1'). lia.
+    + pose proof (C.step_with_cl _ _ _ _ _ H1') as X. intros j b Hj.
+      destruct o; try (apply (HC j b), X, Hj).
+      destruct (X _ _ _ Hj) as [Y | [Y _]]; [exact (HC _ _ Y)|lia].
+Qed.
+
+Theorem run_clean_disconnect_no_end cfg st0 ops1 orc c ops2 st tr :
+  run_hyps cfg st0 (ops1 ++ (orc, OpConnect c) :: ops2) st tr -> cr_clean c = true ->
+  forall s1 tr1, run_d st0 ops1 = Ok (s1, tr1) ->
+  forall id f i cl r w, ~ In (id, (lenN (r_links s1), f, i), KEnd cl r w) tr.
+Proof.
+  intros H Hcl s1 tr1 E1 id f i cl r w Hin.
+  destruct (run_hyps_prefix _ _ _ _ _ _ H) as (s1' & tr1' & tr2 & Hp & E2 & ->).
+  assert (X : s1' = s1 /\ tr1' = tr1) by (destruct Hp as (_ & _ & _ & _ & Hr & _); rewrite E1 in Hr; inversion Hr; auto).
+  destruct X as [-> ->]. pose proof (run_hyps_inv _ _ _ _ _ Hp) as HR.
+  cbn [run_d] in E2. apply bind_ok in E2 as ([[s2 out] evs] & H1 & E2). apply bind_ok in E2 as ([s3 evs3] & H3 & E2). inv_ok.
+  assert (Hfresh : forall j l b, C.clv s1 j = (Some l, Some b) -> l < lenN (r_links s1)).
+  { intros j l b Hj. destruct (clv_obuf _ _ _ _ Hj) as (o & _ & Ho & <- & _). exact (proj1 (rn_link _ _ HR) _ _ Ho). }
+  apply in_app_or in Hin as [Hin | Hin].
+  - pose proof (di_link _ _ _ (rn_di _ _ HR) _ _ _ _ _ Hin). lia.
+  - pose proof (step_with_d_step _ _ _ _ _ _ H1) as H1'.
+    apply in_app_or in Hin as [Hin | Hin].
+    + destruct (step_end_clv _ _ _ _ _ _ H1 _ _ _ _ _ _ _ Hin) as (j & Hj). specialize (Hfresh _ _ _ Hj). lia.
+    + eapply (run_no_end (lenN (r_links s1))); [exact H3| | |exact Hin].
+      * assert (Hlk : lenN (r_links s2) = lenN (r_links s1) + 1); [|lia].
+        unfold step_with in H1'. apply bind_ok in H1' as ([sa oa] & Ha & H1').
+        destruct (r_oracle sa); [|discriminate]. inv_ok. cbn [step] in Ha. apply bind_ok in Ha as (sb & Hb & Ha). inv_ok.
+        apply handle_new_connection_inv in Hb as (E & _). rewrite E. rsimpl. now rewrite lenN_snoc.
+      * pose proof (C.step_with_cl _ _ _ _ _ H1') as X. cbn beta iota in X. intros j b Hj.
+        destruct (X _ _ _ Hj) as [Y | [_ Y]]; [specialize (Hfresh _ _ _ Y); lia|congruence].
+Qed.
+
+Theorem c08_run_clean_disconnect_no_end_thm cfg st0 ops1 orc c ops2 st tr :
+  cfg_ok cfg -> cf_max_outgoing cfg < B62 -> init cfg = Ok st0 -> ops_wf (ops1 ++ (orc, OpConnect c) :: ops2) ->
+  run_d st0 (ops1 ++ (orc, OpConnect c) :: ops2) = Ok (st, tr) -> Bounded st ->
+  cr_clean c = true ->
+  forall s1 tr1, run_d st0 ops1 = Ok (s1, tr1) ->
+  forall id f i cl r w, ~ In (id, (lenN (r_links s1), f, i), KEnd cl r w) tr.
+Proof.
+  intros Hcfg Hmo Hi Hwf Hr HB Hcl s1 tr1 E1.
+  pose proof (conj Hcfg (conj Hmo (conj Hi (conj Hwf (conj Hr HB)))) : run_hyps cfg st0 _ st tr) as H.
+  exact (run_clean_disconnect_no_end _ _ _ _ _ _ _ _ H Hcl _ _ E1).
+Qed.
+
+(* ------------------------------------------------------------------ session_present and the trace *)
+(** the ConnAck committed for the connection a Connect creates: session_present is false if the
+    Connect is clean, and true if the Connect restored a request (a resume marker of the new link is
+    in the trace).  (Not an equivalence: a saved session without non-shared requests leaves no
+    marker.) *)
+Theorem run_session_present cfg st0 ops1 orc c ops2 st tr :
+  run_hyps cfg st0 (ops1 ++ (orc, OpConnect c) :: ops2) st tr ->
+  forall s1 tr1, run_d st0 ops1 = Ok (s1, tr1) ->
+  forall s2 out, step_with s1 orc (OpConnect c) = Ok (s2, out) ->
+  forall id o l sp rest,
+    slab_get (r_obufs s2) id = Some o -> o_link o = lenN (r_links s1) ->
+    slab_get (r_acks s2) id = Some l -> a_committed l = AConnAck id sp :: rest ->
+    (cr_clean c = true -> sp = false) /\
+    ((exists id2 f i cl c0, In (id2, (lenN (r_links s1), f, i), KRes cl c0) tr) -> sp = true).
+Proof.
+  intros H s1 tr1 E1 s2 out Hstep id o l sp rest Ho Hlk Hl Hcom.
+  destruct (run_hyps_prefix _ _ _ _ _ _ H) as (s1' & tr1' & tr2 & Hp & E2 & ->).
+  assert (X : s1' = s1 /\ tr1' = tr1) by (destruct Hp as (_ & _ & _ & _ & Hr & _); rewrite E1 in Hr; inversion Hr; auto).
+  destruct X as [-> ->]. pose proof (run_hyps_inv _ _ _ _ _ Hp) as HR.
+  cbn [run_d] in E2. apply bind_ok in E2 as ([[s2' out'] evs] & H1 & E2). apply bind_ok in E2 as ([s3 evs3] & H3 & E2). inv_ok.
+  pose proof (step_with_d_step _ _ _ _ _ _ H1) as H1'. rewrite Hstep in H1'. inversion H1'; subst s2' out'. clear H1'.
+  assert (HL2 : LinkInv s2) by (apply (WindowStep.step_with_inv _ _ _ _ _ Hstep); exact (rn_link _ _ HR)).
+  (* a resume marker of the new link is emitted by this very step *)
+  assert (Hres : (exists id2 f i cl c0, In (id2, (lenN (r_links s1), f, i), KRes cl c0) (tr1 ++ evs ++ evs3)) ->
+                 exists id2 f i cl c0, In (id2, (lenN (r_links s1), f, i), KRes cl c0) evs).
+  { intros (id2 & f & i & cl & c0 & Hin). exists id2, f, i, cl, c0.
+    apply in_app_or in Hin as [Hin | Hin]; [pose proof (di_link _ _ _ (rn_di _ _ HR) _ _ _ _ _ Hin); lia|].
+    apply in_app_or in Hin as [Hin | Hin]; [exact Hin|exfalso].
+    pose proof (run_res_links _ _ _ _ H3 _ _ _ _ _ _ Hin) as Hle.
+    assert (Hlk2 : lenN (r_links s2) = lenN (r_links s1) + 1); [|lia].
+    unfold step_with in Hstep. apply bind_ok in Hstep as ([sa oa] & Ha & Hstep).
+    destruct (r_oracle sa); [|discriminate]. inv_ok. cbn [step] in Ha. apply bind_ok in Ha as (sb & Hb & Ha). inv_ok.
+    apply handle_new_connection_inv in Hb as (E & _). rewrite E. rsimpl. now rewrite lenN_snoc. }
+  destruct HR as [[[HI Hn] HD] HC HL HDI HBI]. unfold step_with_d in H1.
+  apply bind_ok in H1 as ([[sa outa] evsa] & H1 & Hor). destruct (r_oracle sa); [|discriminate]. inv_ok.
+  unfold step_d in H1. apply bind_ok in H1 as ([sb ob] & H2 & H1). inv_ok. cbn [step] in H2. cbv zeta in H2.
+  apply bind_ok in H2 as (sc & H3' & H2). inv_ok.
+  match type of H3' with handle_new_connection ?s ?cn ?lk = _ => set (sx := s) in *; set (conn := cn) in *; set (link := lk) in * end.
+  assert (Elink : link = lenN (r_links s1)) by reflexivity.
+  assert (HRx : RInvC (r_cfg s1) sx) by (apply RInv_links_app; [apply RInv_set_oracle; exact HI|constructor]).
+  assert (Hlinks : forall j oj, slab_get (r_obufs sx) j = Some oj -> o_link oj < link) by (intros j oj Hj; apply (proj1 HL _ _ Hj)).
+  assert (Hold : forall s, (forall j oj, slab_get (r_obufs s) j = Some oj -> o_link oj < link) ->
+                           slab_get (r_obufs s) id = Some o -> False).
+  { intros s Hs Hj. specialize (Hs _ _ Hj). lia. }
+  unfold handle_new_connection in H3'.
+  destruct (validate_clientid (c_client conn)) eqn:Hv; cbn [negb] in H3'; [|inv_ok; exfalso; eapply Hold; eassumption].
+  apply bind_ok in H3' as (st1 & Hd1 & H3').
+  assert (X1 : RInvC (r_cfg s1) st1 /\ (forall j oj, slab_get (r_obufs st1) j = Some oj -> o_link oj < link)).
+  { destruct (al_get str_eqb (c_client conn) (r_cmap sx)) as [cid|]; [|inv_ok; auto].
+    destruct (wp_ok_inv _ _ _ _ (handle_disconnection_spec (r_cfg s1) sx cid None HRx Hn) Hd1) as (A & _ & _ & _).
+    destruct (handle_disconnection_obs _ _ _ _ Hd1) as (Ob & _ & _ & _). split; [exact A|].
+    intros j oj Hj. destruct (obs_at_sub _ _ _ Ob _ _ Hj) as (o0 & Ho0 & Hs). apply ostep_link in Hs as [Hs _].
+    rewrite Hs. eapply Hlinks; exact Ho0. }
+  destruct X1 as [HR1 Hlinks1].
+  destruct (cf_max_connections (r_cfg st1) <=? slab_len (r_conns st1)) eqn:Hcap; [inv_ok; exfalso; eapply Hold; eassumption|].
+  destruct (hnc_ack (r_cfg s1) st1 conn link s2 HR1 Hv Hcap H3') as (id' & o' & l' & rest' & Ho' & Hlk' & Hl' & Hcom').
+  assert (id = id') by (eapply (proj2 HL2); [exact Ho|exact Ho'|congruence]). subst id'.
+  assert (El : l' = l) by congruence. subst l'. rewrite Hcom' in Hcom. injection Hcom as Esp Er. symmetry in Esp.
+  split.
+  - intros Hcl. rewrite Esp, Hcl. reflexivity.
+  - intros Hex. destruct (Hres Hex) as (id2 & f & i & cl & c0 & Hin).
+    apply in_app_or in Hin as [Hin | Hin].
+    { exfalso. unfold take_ghost in Hin. destruct (validate_clientid (cr_client c)); [|destruct Hin].
+      match type of Hin with In _ (match ?x with _ => _ end) => destruct x as [cid|]; [|destruct Hin] end.
+      match type of Hin with In _ (match ?x with _ => _ end) => destruct x as [s| |]; try destruct Hin end.
+      match type of Hin with In _ (disc_ghost ?a ?b ?c) => pose proof (disc_ghost_nores a b c) as X end.
+      unfold no_res in X. rewrite forallb_forall in X. specialize (X _ Hin). discriminate. }
+    destruct (hnc_shape (r_cfg s1) st1 conn link s2 HR1 Hv Hcap H3') as (_ & idn & reqs & Ec & Hreqs).
+    match type of Hin with In _ ?g => change g with (conn_ghost s2 (c_client conn) link) in Hin end.
+    rewrite Ec in Hin. destruct Hreqs as [-> | (Hf & ss & Hss & _)]; [destruct Hin|].
+    unfold conn in Hf, Hss. cbn [c_clean c_client] in Hf, Hss. rewrite Esp, Hf, Hss. reflexivity.
+Qed.
+
+Theorem c08_run_session_present_thm cfg st0 ops1 orc c ops2 st tr :
+  cfg_ok cfg -> cf_max_outgoing cfg < B62 -> init cfg = Ok st0 -> ops_wf (ops1 ++ (orc, OpConnect c) :: ops2) ->
+  run_d st0 (ops1 ++ (orc, OpConnect c) :: ops2) = Ok (st, tr) -> Bounded st ->
+  forall s1 tr1, run_d st0 ops1 = Ok (s1, tr1) ->
+  forall s2 out, step_with s1 orc (OpConnect c) = Ok (s2, out) ->
+  forall id o l sp rest,
+    slab_get (r_obufs s2) id = Some o -> o_link o = lenN (r_links s1) ->
+    slab_get (r_acks s2) id = Some l -> a_committed l = AConnAck id sp :: rest ->
+    (cr_clean c = true -> sp = false) /\
+    ((exists id2 f i cl c0, In (id2, (lenN (r_links s1), f, i), KRes cl c0) tr) -> sp = true).
+Proof.
+  intros Hcfg Hmo Hi Hwf Hr HB.
+  pose proof (conj Hcfg (conj Hmo (conj Hi (conj Hwf (conj Hr HB)))) : run_hyps cfg st0 _ st tr) as H.
+  exact (run_session_present _ _ _ _ _ _ _ _ H).
 Qed.
